@@ -157,12 +157,28 @@ def run(rep: Report, prog: Program, tier: str) -> None:
         else:
             rep.fail("R18.2", "AdaptiveStrategy.__call__|shape", f"AdaptiveStrategy.__call__ returns {show(r)}; expected fallback(ctx) * self._multiplier()", where=prog.func(q).where(), function=q)
     ad = prog.func(f"{ST}:adaptive")
-    checks = {ast.unparse(n.test) for n in prog._own_nodes(ad.node) if isinstance(n, ast.If)}
-    rep.instance("R18.2", "adaptive|validation", {"checks": sorted(checks)})
-    if any("max_multiplier < min_multiplier" in c or "min_multiplier > max_multiplier" in c for c in checks) and any("min_multiplier < 1.0" in c for c in checks):
+    # decided on the paths of adaptive() that build the strategy (validation helpers read through): each of them has
+    # decided `min_multiplier >= 1.0` and `max_multiplier >= min_multiplier` (linear normal form of its branch literals)
+    from ..paths import norm_less
+
+    MINP, MAXP = ("param", "min_multiplier"), ("param", "max_multiplier")
+    apaths = [p for p in E.paths(ad) if p.exit[0] == "return"]
+    missing: list[str] = []
+    for p in apaths:
+        forms = []
+        for a, pol, _ in p.conds:
+            nf = norm_less(a, pol, integer=False) if isinstance(a, tuple) and a and a[0] == "cmp" and a[1] == "<" else None
+            if nf is not None and nf[0] == ">=0":
+                forms.append((dict(nf[1]), nf[2]))
+        has_min = any(td == {MINP: 1} and c == -1 for td, c in forms)
+        has_order = any(td == {MAXP: 1, MINP: -1} and c == 0 for td, c in forms)
+        if not (has_min and has_order):
+            missing.append("|".join(p.describe()[-3:]))
+    rep.instance("R18.2", "adaptive|validation", {"constructing_paths": len(apaths)})
+    if apaths and not missing:
         rep.ok("R18.2")
     else:
-        rep.fail("R18.2", "adaptive|validation", f"adaptive() no longer validates min_multiplier >= 1.0 and max_multiplier >= min_multiplier: {sorted(checks)}", where=ad.where(), function=ad.qual)
+        rep.fail("R18.2", "adaptive|validation", f"adaptive() no longer validates min_multiplier >= 1.0 and max_multiplier >= min_multiplier on {len(missing)} of its {len(apaths)} constructing paths", where=ad.where(), function=ad.qual)
     # retry_after_or
     q = f"{ST}:retry_after_or.<locals>.f"
     ctx = ("param", "ctx")
